@@ -1392,21 +1392,62 @@ func (r *runningStep) runStage(forceCloseTimeoutMS int64) error {
 	if result.Error != nil {
 		return result.Error
 	}
-	if _, declared := r.stepSchema.Outputs()[result.OutputID]; !declared {
+	outputSchema, declared := r.stepSchema.Outputs()[result.OutputID]
+	if !declared {
 		// Do not report an output the step does not have. Nothing could be connected to it.
 		return fmt.Errorf("plugin step %s/%s returned the output ID '%s', which it did not declare",
 			r.runID, r.pluginStepID, result.OutputID)
 	}
+	// Bring the data into the serialized form of the declared output schema, as is done for the workflow input.
+	// The wire format decodes non-negative integers as unsigned, for example, which expressions cannot calculate with.
+	unserializedOutput, err := outputSchema.Unserialize(result.OutputData)
+	if err != nil {
+		return fmt.Errorf("plugin step %s/%s returned data for the output '%s' that does not match its schema (%w)",
+			r.runID, r.pluginStepID, result.OutputID, err)
+	}
+	serializedOutput, err := outputSchema.Serialize(unserializedOutput)
+	if err != nil {
+		return fmt.Errorf("plugin step %s/%s returned data for the output '%s' that cannot be serialized (%w)",
+			r.runID, r.pluginStepID, result.OutputID, err)
+	}
+	result.OutputData = withAnyKeys(serializedOutput)
 
 	// Execution complete, move to state running stage outputs, then to state finished stage.
 	r.transitionRunningStage(StageIDOutput)
 	r.completeStep(r.currentStage, step.RunningStepStateFinished, &result.OutputID, &result.OutputData)
 	// The step finished with an output, so it can neither crash nor be closed anymore.
-	err := fmt.Errorf("step %s/%s finished", r.runID, r.pluginStepID)
+	err = fmt.Errorf("step %s/%s finished", r.runID, r.pluginStepID)
 	r.markNotCrashable(err)
 	r.markNotClosable(err)
 
 	return nil
+}
+
+// withAnyKeys returns the data with every string-keyed map replaced by a map with keys of type any, which is the
+// form in which decoded plugin output has always been handed on.
+func withAnyKeys(data any) any {
+	switch d := data.(type) {
+	case map[string]any:
+		result := make(map[any]any, len(d))
+		for k, v := range d {
+			result[k] = withAnyKeys(v)
+		}
+		return result
+	case map[any]any:
+		result := make(map[any]any, len(d))
+		for k, v := range d {
+			result[k] = withAnyKeys(v)
+		}
+		return result
+	case []any:
+		result := make([]any, len(d))
+		for i, v := range d {
+			result[i] = withAnyKeys(v)
+		}
+		return result
+	default:
+		return data
+	}
 }
 
 func (r *runningStep) markStageFailures(firstStage StageID, err error) {
